@@ -228,7 +228,9 @@ DUnionTypes == { TDUnion(<<TObj("P1"), TObj("P2")>>, "kind", << <<"P1">>, <<"P2"
                  TDUnion(<<TObj("P1"), TObj("PA"), TObj("FL")>>, "type", << <<"P1">>, <<"PA">>, <<"FL">> >>, "default"),
                  \* the discriminator is a declared (aliased) Literal field of the alternatives
                  TDUnion(<<TObj("CAT"), TObj("DOG"), TObj("P1")>>, "type", << <<"cat">>, <<"dog", "d">>, <<"P1">> >>, "default"),
-                 TDUnion(<<TObj("TDK"), TObj("P1"), TObj("CAT")>>, "type", << <<"tdk">>, <<"P1">>, <<"cat">> >>, "default") }
+                 TDUnion(<<TObj("TDK"), TObj("P1"), TObj("CAT")>>, "type", << <<"tdk">>, <<"P1">>, <<"cat">> >>, "default"),
+                 \* ... and one where the TypedDict is the only alternative DECLARING the discriminator
+                 TDUnion(<<TObj("TDK"), TObj("P1")>>, "type", << <<"tdk">>, <<"P1">> >>, "default") }
 
 \* typing itself collapses duplicate alternatives (Union[str, str] is str): not distinct types
 RECURSIVE WF(_)
